@@ -74,7 +74,7 @@ def check(run):
             k = {s: v for s, v in a1[0].items() if s != 'p.buffer.begin()'}
         same = [s for s in subs if rf.cfg.node_block(s.site) == rf.cfg.node_block(c) and q.linform(rf, s.site['rhs']) == (k, 0)]
         run.check(bool(same), 'R9', 'shrink-paired', U + '::receive_from_impl: p.buffer.erase', rf.loc(c), 'a datagram\'s payload is shortened without subtracting the same amount from m_queue_size', 'erase(begin, begin+k) paired with m_queue_size -= k')
-    removes = [c for c in rf.calls() if (c.get('callee') or '').endswith('::erase') and q.render(rf, c.get('obj')) == 'm_incoming_queue']
+    removes = [c for op, c in q.container_calls(rf, 'm_incoming_queue') if op in ('erase', 'pop_front', 'pop_back')]
     if not removes:
         run.broke('receive_from_impl no longer erases from m_incoming_queue')
     for c in removes:
@@ -84,7 +84,7 @@ def check(run):
         run.check(bool(whole) or empt, 'R9', 'removal-subtracts-remainder', U + '::receive_from_impl: m_incoming_queue.erase', rf.loc(c),
                   'the datagram is removed while its payload may be non-empty (receive buffers smaller than the datagram) and the remainder is never subtracted from m_queue_size: truncating reads leak receive budget until every datagram is silently dropped',
                   'the remaining payload is subtracted before the datagram is removed (or the removal is dominated by p.buffer.empty())')
-        run.check(q.render(rf, c['args'][0]) == 'm_incoming_queue.begin()' and not (rf.cfg.node_block(c) in rf.cfg.reach_from(rf.cfg.node_block(c))), 'R4', 'one-datagram-per-receive',
+        run.check(q.canon_op(rf, c) == 'pop_front' and not (rf.cfg.node_block(c) in rf.cfg.reach_from(rf.cfg.node_block(c))), 'R4', 'one-datagram-per-receive',
                   U + '::receive_from_impl', rf.loc(c), 'the receive does not remove exactly the front datagram once', 'erases begin() once, outside any loop')
     # the packet read is the front one and the sender comes from it
     fr = [n for n in rf.all_nodes() if n['k'] == 'decl' and any('m_incoming_queue.front()' in q.render(rf, v.get('init')) for v in n['vars'])]
